@@ -37,7 +37,10 @@ def fsOf (args : Json) : FSData :=
   let extra := (getStrList args "dirs").map fun d => "/ROOT/" ++ d
   let files := docs.map (·.1) ++ envs.map (·.1)
   let dirs := (files.flatMap fun f => ancestors (dir f)) ++ (extra.flatMap ancestors) ++ ["/ROOT", "/CWD", "/"]
-  { cwd := "/CWD", dirs := dirs.eraseDups, docs := docs, envs := envs }
+  let home := match args.getObjVal? "home" with
+    | .ok (.str h) => some h
+    | _ => none
+  { home := home, cwd := "/CWD", dirs := dirs.eraseDups, docs := docs, envs := envs }
 
 def envOf (args : Json) (k : String) : Env := getStrMap args k
 
